@@ -25,7 +25,7 @@ PROPS = {
         "title": "handshake progress (first stale member gets a non-empty node delta when header + one operation fit; the initiator applies it and its frontier strictly advances, nothing moves back), deliverable iff ahead, frontiers bounded by the owner's max version; over the global relation: world potential never lowered by a non-evaluation step, raised by every handshake of a quiet lagging initiator, bounded by copies*(V+1)^2; fair-round convergence additionally exercised by the conv suite; KF-2 witness",
     },
     "C02": {
-        "suites": [("kf1", 12, 60), ("proc", 300, 3000), ("apply", 100, 1000), ("kv", 60, 400)],
+        "suites": [("kf1", 12, 60), ("proc", 300, 3000), ("conv", 30, 200), ("apply", 100, 1000), ("kv", 60, 400)],
         "title": "in every state reachable without a weak acceptance (known finding KF-1), every copy and every message in flight is exact up to its frontier w.r.t. the owner's write ledger; with weak acceptances allowed the statement is refuted by a reachable 3-node history (vm_compute witness)",
     },
     "C03": {
@@ -141,6 +141,11 @@ def disagreement_is_failing_input(pid, broken):
         # whose prefix matches, once, key stripped): the implementation's call log differing from them
         # on a concrete history is the failing input
         if pid == "C15" and kind == "correspondence" and re.search(r"op:\s+CALLS ", msg):
+            return True
+        # C19: the observables compared by the loop/udp suites (answered, running, heartbeating,
+        # shutdown report) are exactly what the property talks about; the loop model is proved to
+        # satisfy it, so the implementation's loop deviating on a concrete event script is the input
+        if pid == "C19" and kind == "correspondence" and re.search(r"op:\s+(LEV|UDP)\b", msg):
             return True
     return False
 
